@@ -64,7 +64,7 @@ def make_specs():
         Match({'a': {'b': int}, Optional('opt', default=[]): list, str: object}),      # 12 Optional default
         'a.zz.y',                                                    # 13 failing path
         Invoke(_collect).star(kwargs='opts').specs(c='n').constants(d=1),   # 14 a dict of the target star-starred, then more kwargs
-        ('rec', Coalesce('b', 'zz', default='none')),               # 15 a dict-subclass instance: its handler is looked up by fuzzy type
+        Coalesce('rec.zz', default='none'),                          # 15 a dict-subclass instance: its handler is looked up by fuzzy type
     ]
 
 
